@@ -44,6 +44,9 @@ struct Sc {
     /// pool db2 in session mode; its clients open a connection per transaction, so every
     /// transaction is the first statement of a client that holds no server yet
     session_db2: bool,
+    /// statement caching on; clients now and then send a lone Parse + Sync (as PQprepare does) of
+    /// a text the pooler already knows, which it answers without a server
+    cache: bool,
 }
 
 fn scenario(sc: &Sc, rep: &Report) -> Result<(), String> {
@@ -59,6 +62,9 @@ fn scenario(sc: &Sc, rep: &Report) -> Result<(), String> {
     ));
     if sc.session_db2 {
         cfg.pools[1].set("pool_mode", "\"session\"");
+    }
+    if sc.cache {
+        cfg.pools[0].set("prepared_statements_cache_size", "8");
     }
     cfg.gset("worker_threads", &sc.workers.to_string());
     cfg.gset("connect_timeout", "5000");
@@ -76,6 +82,7 @@ fn scenario(sc: &Sc, rep: &Report) -> Result<(), String> {
         let stop = stop.clone();
         let seed = sc.seed ^ (ci as u64 + 7) * 0x51_7c_c1;
         let session_db2 = sc.session_db2;
+        let cache = sc.cache;
         hs.push(std::thread::spawn(move || -> Vec<Req> {
             let mut rng = Rng::new(seed);
             let cid = format!("c{}", ci);
@@ -95,6 +102,14 @@ fn scenario(sc: &Sc, rep: &Report) -> Result<(), String> {
                         Ok(c) => c,
                         Err(_) => return out,
                     };
+                }
+                if cache && pool == "db" && rng.chance(1, 3) {
+                    // prepare only: no transaction is started by this, the client holds nothing afterwards
+                    let mut b = proto::parse(&format!("ps_{}_{}", cid, n), "SELECT 1 /*v q=c16.shared rows=1 */", &[]);
+                    b.extend(proto::sync());
+                    if conn.send(&b).is_err() || conn.read_until_ready(45_000).is_err() {
+                        break;
+                    }
                 }
                 let in_block = rng.chance(1, 3);
                 let mut steps = vec![];
@@ -319,6 +334,7 @@ pub fn run(tier: &str) -> i32 {
             pool_size: rng.range(1, 4) as u32,
             jitter_us: *rng.pick(&[0, 300, 2000]),
             session_db2: rng.chance(1, 3),
+            cache: rng.chance(1, 3),
         })
         .collect();
     run_parallel(n, workers(), |i| {
